@@ -24,7 +24,7 @@ theorem C13_close_steps_refine (w : Wrap.State) (err : Fin) (h : w.closed = none
   subst h
   cases hc <;> cases ce <;>
     simp [lift, Fine.run, closeOrder, Fine.step, Fine.readHeader, Fine.readTrailer, Fine.readTerminal,
-      Fine.closeErrLocked, Wrap.header, Wrap.trailer, Wrap.terminal, Wrap.close, Wrap.sendHeaderIfNeeded,
+      Fine.closeErrLocked, Wrap.header, Wrap.trailer, Wrap.terminal, Wrap.close, Wrap.sendHeaderIfNeeded, Wrap.sendHeaderIfNeededC, Wrap.sendHeaderC,
       Wrap.sendHeader, Cfg.current]
 
 /-- **No torn read.** Stop `Close(err)` after any number `k` of its statements (any state of the caller's
@@ -43,7 +43,7 @@ theorem C13_close_no_torn_read (w : Wrap.State) (err : Fin) (k : Nat) (h : w.clo
   rcases run_closeOrder_take (lift ⟨hd, hc, tr, none, ce, hp, co, so, cob, sob⟩) err k with e | e | e | e | e <;>
     rw [e] <;> cases hc <;> cases ce <;>
     simp [lift, Fine.run, closeOrder, Fine.step, Fine.readHeader, Fine.readTrailer, Fine.readTerminal,
-      Fine.closeErrLocked, Wrap.header, Wrap.trailer, Wrap.terminal, Wrap.close, Wrap.sendHeaderIfNeeded,
+      Fine.closeErrLocked, Wrap.header, Wrap.trailer, Wrap.terminal, Wrap.close, Wrap.sendHeaderIfNeeded, Wrap.sendHeaderIfNeededC, Wrap.sendHeaderC,
       Wrap.sendHeader, Cfg.current]
 
 /-- **Once visible, always visible.** If after `k` statements the terminal `RecvMsg` (resp. `Header()`)
@@ -61,7 +61,7 @@ theorem C13_close_monotone (w : Wrap.State) (err : Fin) (k : Nat) (h : w.closed 
   | 0 | 1 | 2 | 3 =>
     cases hc <;> cases ce <;>
       simp [lift, Fine.run, closeOrder, Fine.step, Fine.readHeader, Fine.readTerminal,
-        Fine.closeErrLocked, Wrap.header, Wrap.terminal, Wrap.close, Wrap.sendHeaderIfNeeded,
+        Fine.closeErrLocked, Wrap.header, Wrap.terminal, Wrap.close, Wrap.sendHeaderIfNeeded, Wrap.sendHeaderIfNeededC, Wrap.sendHeaderC,
         Wrap.sendHeader, Cfg.current, Wrap.canon]
   | k + 4 =>
     have e1 : (closeOrder err).take (k + 4) = closeOrder err := by simp [closeOrder, List.take]
@@ -84,7 +84,7 @@ theorem C13_close_terminal_implies_header (w : Wrap.State) (err : Fin) (k : Nat)
   rcases run_closeOrder_take (lift ⟨hd, hc, tr, none, none, hp, co, so, cob, sob⟩) err k with e' | e' | e' | e' | e' <;>
     rw [e'] at ht ⊢ <;> cases hc <;>
     simp_all [lift, Fine.run, closeOrder, Fine.step, Fine.readHeader, Fine.readTerminal,
-      Fine.closeErrLocked, Wrap.header, Wrap.close, Wrap.sendHeaderIfNeeded, Wrap.sendHeader, Cfg.current]
+      Fine.closeErrLocked, Wrap.header, Wrap.close, Wrap.sendHeaderIfNeeded, Wrap.sendHeaderIfNeededC, Wrap.sendHeaderC, Wrap.sendHeader, Cfg.current]
 
 /-- The hypotheses are inhabited and the statement is not vacuous: a live call with a staged header,
 stopped after three statements, already reads its status and its header. -/
